@@ -18,12 +18,15 @@ GraphAfter(c, impl, k) == IF k = 0 THEN c.P
                           ELSE LET g == GraphAfter(c, impl, k - 1)
                                IN IF c.acts[k].op = "commit" /\ impl[k + 1].exc = "" THEN Append(g, impl[k + 1].np) ELSE g
 S0(x) == St(x.P, x.tip, x.revno, x.wtp, TagSet(x.tags), IF x.bound THEN x.tip ELSE 0, IF x.bound THEN x.revno ELSE 0)
+Expected(c, impl, k) == impl[k + 1].exc = "" \/ (c.acts[k].refuse /\ impl[k + 1].exc = "uncommit:TipChangeRejected")
 FailedRow(c, impl) ==
-    IF \E k \in DOMAIN impl : impl[k].exc # "" THEN {"completes"}       \* the later observations mean nothing then
+    IF \E k \in DOMAIN c.acts : ~Expected(c, impl, k) THEN {"completes"}     \* the later observations mean nothing then
     ELSE BehaviourFailed([k \in 1..(Len(c.acts) + 1) |-> GraphAfter(c, impl, k - 1)], c.bound, c.acts,
                          [k \in DOMAIN impl |-> Obs(impl[k])])
 DriftRow(c, impl) == LET r == Run(S0(c), c.bound, c.acts)
-                     IN Len(impl) # Len(r) \/ \E k \in DOMAIN r : Core(Obs(impl[k])) # Core(AsObs(r[k]))
+                     IN \/ Len(impl) # Len(r)
+                        \/ (\E k \in DOMAIN r : Core(Obs(impl[k])) # Core(AsObs(r[k])))
+                        \/ (\E j \in DOMAIN c.acts : c.acts[j].refuse /\ impl[j + 1].exc = "")
 Bad == SelectSeq([k \in 1..Len(Rows) |->
                     [row |-> k, failed |-> SetToSeq(FailedRow(Rows[k].c, Rows[k].impl)),
                      drift |-> DriftRow(Rows[k].c, Rows[k].impl)]],
